@@ -45,6 +45,9 @@ class Executor:
 
         self._titles = self._executed_instance.get_titles()
         self._sheets_size = self._executed_instance.get_sheets_size()
+        # the overrides made so far belong to the executor, not to the instance it held before: the new instance gets them at the
+        # next query
+        self._cells_have_been_changed = bool(self._cells)
 
         return self
 
